@@ -1,7 +1,7 @@
 SPECIFICATION Spec
 CONSTANTS
   Kinds = {"1ok", "1unk", "1bad", "2ok", "2unk", "2bad", "1okB", "1okC"}
-  Configs = {"both", "t1only", "t2only", "firstfails", "none", "crosscollide", "samecollide", "samecollide2"}
+  Configs = {"both", "t1only", "t2only", "firstfails", "none", "crosscollide", "samecollide", "samecollide2", "onlyfails"}
   MaxLen = 4
 INVARIANT CountAndOrder
 INVARIANT PresentIff
